@@ -44,7 +44,7 @@ BOUND = {
 REQUIRED_CLASSES = [
     'q_zero', 'q_tiny', 'q_backscatter', 'q_generic', 'unit_angstrom', 'unit_nm', 'scalar_call', 'wavelength_array', 'beam_array',
     'both_arrays', 'length_pow2_bitwise', 'rot_cube', 'rot_generic', 'q_norm_judged', 'reassemble_bitwise', 'hkl_judged',
-    'cond_gt_1e5', 'cond_1', 'R_quaternion', 'R_matrix', 'graph_route', 'ub_judged', 'hkl_array',
+    'cond_gt_1e5', 'cond_1', 'R_quaternion', 'R_matrix', 'R_array', 'graph_route', 'ub_judged', 'hkl_array',
 ]
 
 SITE_Q = 'conversion.tof.Q_elements_from_wavelength'
@@ -76,6 +76,9 @@ def _b_matrices():
     out.append(('hexagonal', busing_levy(4.0, 4.0, 6.0, 90, 90, 120)))
     out.append(('triclinic', busing_levy(4.0, 5.0, 6.0, 80, 95, 105)))
     out.append(('cond1e6', np.diag([1.0, 1e-3, 1e3])))
+    # perfectly conditioned but with a determinant far from 1 (large cell: det 1e-9; tiny cell: det 1e6)
+    out.append(('cubic1000', np.eye(3) / 1000.0))
+    out.append(('cubic0.01', np.eye(3) * 100.0))
     return out
 
 
@@ -394,6 +397,29 @@ def _run_hkl(case, rec):
         hv = tuple(float(x) for x in ha.values[j])
         judge(hv, q, 'array')
         rec.cls('array_equals_scalar_bitwise' if hv == got0[j] else 'array_differs_from_scalar')  # informative only
+    # array of sample rotations (one per goniometer setting), 2 and 3 of them, against a 0-d Q
+    nrot = 28  # 24 cube + 3 generic + 1 tiny
+    for nset in (2, 3):
+        idxs = [(ri + 5 * k) % nrot for k in range(nset)]
+        Rs = [rot_variable(i, rep) for i in idxs]
+        Ra = sc.concat(Rs, 'setting')
+        rmats = [geom.quat_to_matrix(r.value) if rep == 'quat' else geom.mat(r.value) for r in Rs]
+        q = Q_SET[3 % len(Q_SET)]
+        rec.transitions += 1
+        hs = tof.hkl_vec_from_Q_vec(Q_vec=sc.vector(list(q), unit='1/angstrom'), ub_matrix=ub, sample_rotation=Ra)
+        rec.cls('R_array')
+        if hs.dims != ('setting',) or hs.shape != (nset,):
+            rec.viol(SITE_HKL, 'wrong_dims', f'array of {nset} sample rotations: result dims {hs.dims} shape {hs.shape}', nset=nset)
+            continue
+        for k in range(nset):
+            hv = tuple(float(x) for x in hs.values[k])
+            rec.evals += 1
+            rec.validated += 1
+            a_k = np.array([[float(x) for x in row] for row in geom.matmul(rmats[k], ubm)])
+            cond_k = float(np.linalg.cond(a_k))
+            res, qn = qvec.hkl_residual(rmats[k], ubm, hv, q)
+            if not all(math.isfinite(x) for x in hv) or res > 64 * EPS * cond_k * qn:
+                rec.viol(SITE_HKL, 'residual_rotation_array', f'{nset} sample rotations, element {k}: |2pi R UB hkl - Q| = {float(res):.3e} (hkl={list(hv)}, Q={list(q)})', nset=nset, element=k)
     parts = tof.hkl_elements_from_hkl_vec(hkl_vec=ha)
     if not (np.array_equal(parts['h'].values, ha.fields.x.values) and np.array_equal(parts['k'].values, ha.values[:, 1]) and np.array_equal(parts['l'].values, ha.values[:, 2])):
         rec.viol(SITE_HE, 'lossy_split', 'array h,k,l differ from the vector components')
